@@ -123,7 +123,9 @@ func localToQid(_ string, fi os.FileInfo) (uint64, error) {
 	if q, ok := encodeLikely(uint64(stat.Dev), stat.Ino); ok {
 		return q, nil
 	}
-	di := &devino{uint64(stat.Dev), stat.Ino}
+	// The table is keyed by value: a pointer would be a fresh key on every
+	// lookup and the same pair would get a new QID each time.
+	di := devino{uint64(stat.Dev), stat.Ino}
 	if q, ok := qids.Load(di); ok {
 		return q.(uint64), nil
 	}
